@@ -8,6 +8,12 @@
    Numbers taken from the source (flag values, permission bits, flags per call site, mode/umask recipe
    of every created file) come from gen/GenPath.v, regenerated on every run.
 
+   Process identity: every predicate takes the whole identity of the process (real, effective, saved uid
+   and gid); which of them an ownership test consults is a fact observed from the source (GenPath's
+   *_owner_id).  Files the daemon creates: "create" is an operation on the state of one directory entry
+   (absent / file of some type, owner, mode / symlink to a file / dangling symlink), composed of unlink(2)
+   and open(2)/bind(2) as the source orders them (GenPath's *_how, observed with strace).
+
    A directory chain is the list of lstat() records of the directories that path_is_secure visits:
    the canonical directory first, then each parent, "/" last.  Modes are st_mode land 07777. *)
 From Coq Require Import List NArith Bool.
@@ -60,11 +66,23 @@ Definition path_is_accessible (chain : list dstat) : option nat := walk_x 0 chai
 Definition visited {A} (leaf_is_dir : bool) (prefixes : list A) : list A :=
   if leaf_is_dir then prefixes else tl prefixes.
 
+(* ---- process identity ---- *)
+Record ident := mkid { i_ruid : N; i_euid : N; i_suid : N; i_rgid : N; i_egid : N; i_sgid : N }.
+
+(* the uid an ownership test compares with: sel is one of GenPath's *_owner_id *)
+Definition pick_uid (sel : N) (id : ident) : N := if sel =? id_real then i_ruid id else i_euid id.
+
+(* path_is_secure as the process with identity id runs it *)
+Definition path_secure_as (id : ident) (tg flags : N) (chain : list dstat) : verdict :=
+  path_is_secure (pick_uid dir_owner_id id) tg flags chain.
+
 (* ---- files ---- *)
 Inductive ftype := TReg | TDir | TLnk | TFifo | TSock | TChr | TBlk.
 Record fstat := mkf { f_type : ftype; f_uid : N; f_gid : N; f_mode : N }.
 (* what lstat and stat say about a name: o_symlink = lstat succeeded and S_ISLNK;
-   o_stat = result of stat()/fstat() (symlinks followed), None when that fails with ENOENT *)
+   o_stat = result of stat()/fstat() (symlinks followed), None when that fails with ENOENT.
+   The same record is the state of a directory entry: (false, None) absent, (false, Some s) a file,
+   (true, Some s) a symlink to a file, (true, None) a dangling symlink. *)
 Record fobs := mko { o_symlink : bool; o_stat : option fstat }.
 
 Definition is_reg (s : fstat) : bool := match f_type s with TReg => true | _ => false end.
@@ -72,7 +90,9 @@ Definition is_dir (s : fstat) : bool := match f_type s with TDir => true | _ => 
 
 Inductive why :=
 | WMissing | WType | WSymlink | WOwner | WGroup | WOther
-| WDir (i : nat) (r : reason) | WAccess (i : nat) | WLock | WHang.
+| WDir (i : nat) (r : reason) | WAccess (i : nat) | WLock | WHang
+| WCreate      (* open(O_CREAT) of a file the daemon needs failed *)
+| WExists.     (* what is at the socket's name cannot be removed *)
 
 Definition dir_why (v : verdict) : option why :=
   match v with Secure => None | Insecure i r => Some (WDir i r) end.
@@ -82,28 +102,29 @@ Definition oth_rw : N := N.lor s_iroth s_iwoth.
 
 (* conf.c _conf_open_keyfile: None = the key is opened; Some w = the daemon dies with that complaint.
    log_err is fatal always, log_err_or_warn only without --force. *)
-Definition keyfile_check (force : bool) (euid tg : N) (o : fobs) (chain : list dstat) : option why :=
+Definition keyfile_check (force : bool) (id : ident) (tg : N) (o : fobs) (chain : list dstat) : option why :=
   match o_stat o with
   | None => Some WMissing
   | Some s =>
     if negb (is_reg s) then Some WType
     else if force then None
     else if o_symlink o then Some WSymlink
-    else if negb (f_uid s =? euid) then Some WOwner
+    else if negb (f_uid s =? pick_uid key_owner_id id) then Some WOwner
     else if has (f_mode s) grp_rw then Some WGroup
     else if has (f_mode s) oth_rw then Some WOther
-    else dir_why (path_is_secure euid tg key_flags chain)
+    else dir_why (path_secure_as id tg key_flags chain)
   end.
 
-(* random.c _random_read_seed: (bad, used) — bad = returns -1 (caller unlinks), used = bytes reach the pool *)
-Definition seed_valid (euid : N) (s : fstat) : bool :=
-  is_reg s && (f_uid s =? euid) && negb (has (f_mode s) grp_rw) && negb (has (f_mode s) oth_rw).
+(* random.c _random_read_seed: (bad, used) — bad = returns -1 (caller unlinks), used = bytes reach the pool.
+   (A seed the process may not read fails in open(): bad and unused as well.) *)
+Definition seed_valid (id : ident) (s : fstat) : bool :=
+  is_reg s && (f_uid s =? pick_uid seed_owner_id id) && negb (has (f_mode s) grp_rw) && negb (has (f_mode s) oth_rw).
 
-Definition seed_read (euid : N) (o : fobs) : bool * bool :=
+Definition seed_read (id : ident) (o : fobs) : bool * bool :=
   if o_symlink o then (true, false)
   else match o_stat o with
        | None => (false, false)
-       | Some s => if seed_valid euid s then (false, true) else (true, false)
+       | Some s => if seed_valid id s then (false, true) else (true, false)
        end.
 
 Definition is_fifo (s : fstat) : bool := match f_type s with TFifo => true | _ => false end.
@@ -121,35 +142,35 @@ Record seedres := mks { sr_refuse : option why;   (* start refused (seed directo
                         sr_keep : bool }.         (* seed name kept: a new seed is written at exit *)
 
 (* random.c _random_read_entropy_from_file + random_init + munged.c main *)
-Definition seed_step (force : bool) (euid tg : N) (o : fobs) (chain : list dstat) : seedres :=
-  let v := path_is_secure euid tg seed_flags chain in
+Definition seed_step (force : bool) (id : ident) (tg : N) (o : fobs) (chain : list dstat) : seedres :=
+  let v := path_secure_as id tg seed_flags chain in
   match v, force with
   | Insecure i r, false => mks (Some (WDir i r)) false false false false
   | _, _ =>
     if seed_blocks o then mks None true false false false else
-    let '(bad, used) := seed_read euid o in
+    let '(bad, used) := seed_read id o in
     let removed := bad && (o_symlink o || match o_stat o with Some s => negb (is_dir s) | None => false end) in
     mks None false used removed (match v with Secure => true | _ => false end)
   end.
 
 (* munged.c open_logfile (daemon mode only) *)
-Definition logfile_check (force : bool) (euid tg : N) (o : fobs) (chain : list dstat) : option why :=
+Definition logfile_check (force : bool) (id : ident) (tg : N) (o : fobs) (chain : list dstat) : option why :=
   if o_symlink o && negb force then Some WSymlink
   else match (match o_stat o with
               | None => None
               | Some s =>
                 if negb (is_reg s) then Some WType
                 else if force then None
-                else if negb (f_uid s =? euid) then Some WOwner
+                else if negb (f_uid s =? pick_uid log_owner_id id) then Some WOwner
                 else if has (f_mode s) s_iwgrp then Some WGroup
                 else if has (f_mode s) s_iwoth then Some WOther
                 else None
               end) with
        | Some w => Some w
-       | None => if force then None else dir_why (path_is_secure euid tg log_flags chain)
+       | None => if force then None else dir_why (path_secure_as id tg log_flags chain)
        end.
 
-(* ---- created files ---- *)
+(* ---- created files: mode arithmetic ---- *)
 Record recipe := mkr { r_req : N; r_keep : N; r_or : N; r_chmod : option N }.
 Definition recipe_of (t : N * N * N * option N) : recipe :=
   let '(a, b, c, d) := t in mkr a b c d.
@@ -168,40 +189,159 @@ Definition pid_recipe (fg : bool) := recipe_of (if fg then fg_pid else bg_pid).
 Definition seed_recipe (fg : bool) := recipe_of (if fg then fg_seed else bg_seed).
 Definition log_recipe := recipe_of bg_log.
 
-(* lock.c lock_create + _lock_stat: with --force an old lock file is unlinked first; open(O_CREAT) keeps
-   the mode of an existing file; the result must be a regular file of mode exactly 0200 owned by euid *)
-Definition lock_mode (fg force : bool) (umask : N) (existing : option fstat) : N :=
-  match (if force then None else existing) with
-  | Some s => f_mode s
-  | None => created (lock_recipe fg) umask
-  end.
-Definition lock_check (fg force : bool) (euid umask : N) (existing : option fstat) : option why :=
-  match (if force then None else existing) with
-  | Some s => if is_reg s && (f_mode s =? s_iwusr) && (f_uid s =? euid) then None else Some WLock
-  | None => if created (lock_recipe fg) umask =? s_iwusr then None else Some WLock
+(* ---- created files: the directory entry before and after ---- *)
+Definition e_absent : fobs := mko false None.
+Definition e_file (s : fstat) : fobs := mko false (Some s).
+
+(* unlink(2) removes the name — a symlink itself, never its target — and fails on a directory *)
+Definition unlink_fails (e : fobs) : bool :=
+  negb (o_symlink e) && match o_stat e with Some s => is_dir s | None => false end.
+Definition fs_unlink (e : fobs) : fobs := if unlink_fails e then e else e_absent.
+
+(* write permission of the process on an existing file (Linux: the effective ids decide; uid 0 may always;
+   the harness drops all supplementary groups) *)
+Definition may_write (id : ident) (s : fstat) : bool :=
+  (i_euid id =? 0) ||
+  (if f_uid s =? i_euid id then has (f_mode s) s_iwusr
+   else if f_gid s =? i_egid id then has (f_mode s) s_iwgrp
+   else has (f_mode s) s_iwoth).
+
+(* a file the process creates belongs to its effective uid and gid (no set-group-ID directories here) *)
+Definition fresh_file (id : ident) (mode : N) : fstat := mkf TReg (i_euid id) (i_egid id) mode.
+
+Inductive ores :=
+| OOpened (e' : fobs) (s : fstat)    (* entry afterwards, file the descriptor refers to *)
+| OFail                              (* open fails: EISDIR, ENXIO, EACCES, EEXIST, ELOOP *)
+| OBlock.                            (* a FIFO nobody reads: open for writing never returns *)
+
+Definition open_existing (id : ident) (s : fstat) (e : fobs) : ores :=
+  match f_type s with
+  | TReg | TChr | TBlk => if may_write id s then OOpened e s else OFail
+  | TFifo => if may_write id s then OBlock else OFail
+  | TDir | TSock | TLnk => OFail
   end.
 
+(* open(name, O_WRONLY|O_CREAT[|O_TRUNC|O_APPEND][|O_EXCL][|O_NOFOLLOW], mode) under umask; no O_NONBLOCK.
+   An existing file keeps owner and mode; a dangling symlink is followed and its target created. *)
+Definition fs_open_creat (excl nofollow : bool) (id : ident) (mode : N) (e : fobs) : ores :=
+  let f := fresh_file id mode in
+  if o_symlink e then
+    if excl || nofollow then OFail
+    else match o_stat e with
+         | None => OOpened (mko true (Some f)) f
+         | Some s => open_existing id s e
+         end
+  else match o_stat e with
+       | None => OOpened (e_file f) f
+       | Some s => if excl then OFail else open_existing id s e
+       end.
+
+(* how the source creates a file: is the name unlinked first, O_EXCL, O_NOFOLLOW (GenPath *_how) *)
+Record how := mkh { h_unlink : bool; h_excl : bool; h_nofollow : bool }.
+Definition how_of (t : bool * bool * bool) : how := let '(a, b, c) := t in mkh a b c.
+
+Definition sock_how (fg : bool) := how_of (if fg then fg_sock_how else bg_sock_how).
+Definition lock_how (fg : bool) := how_of (if fg then fg_lock_how else bg_lock_how).
+Definition pid_how (fg : bool) := how_of (if fg then fg_pid_how else bg_pid_how).
+Definition seed_how (fg : bool) := how_of (if fg then fg_seed_how else bg_seed_how).
+Definition log_how := how_of bg_log_how.
+
+Definition set_mode (s : fstat) (m : N) : fstat := mkf (f_type s) (f_uid s) (f_gid s) m.
+
+(* [unlink;] open(O_CREAT) under the recipe's umask [; fchmod] — on any prior state of the entry *)
+Definition create_at (h : how) (r : recipe) (id : ident) (inherited : N) (e : fobs) : ores :=
+  let e1 := if h_unlink h then fs_unlink e else e in
+  match fs_open_creat (h_excl h) (h_nofollow h) id (created_mode (r_req r) (in_force r inherited)) e1 with
+  | OOpened e' s =>
+    match r_chmod r with
+    | Some m => OOpened (mko (o_symlink e') (Some (set_mode s m))) (set_mode s m)
+    | None => OOpened e' s
+    end
+  | x => x
+  end.
+
+(* result of writing a file that is not vital: entry afterwards, the file written (if any), blocked *)
+Record wres := mkw { w_entry : fobs; w_file : option fstat; w_hang : bool }.
+
+(* munged.c write_pidfile after the directory check: a failure is a warning, and the name is unlinked again *)
+Definition pid_write (fg : bool) (id : ident) (inherited : N) (e : fobs) : wres :=
+  match create_at (pid_how fg) (pid_recipe fg) id inherited e with
+  | OOpened e' s => mkw e' (Some s) false
+  | OFail => mkw (fs_unlink e) None false
+  | OBlock => mkw e None true
+  end.
+
+(* random.c _random_write_seed at exit: a failure is a warning *)
+Definition seed_write (fg : bool) (id : ident) (inherited : N) (e : fobs) : wres :=
+  match create_at (seed_how fg) (seed_recipe fg) id inherited e with
+  | OOpened e' s => mkw e' (Some s) false
+  | OFail => mkw (if h_unlink (seed_how fg) then fs_unlink e else e) None false
+  | OBlock => mkw e None true
+  end.
+
+(* munged.c sock_create after the lock: unlink (an error other than ENOENT is fatal), bind under umask 0
+   (EADDRINUSE when the name still exists).  None = the daemon dies. *)
+Definition sock_bind (fg : bool) (id : ident) (inherited : N) (e : fobs) : option fobs :=
+  let h := sock_how fg in
+  if h_unlink h && unlink_fails e then None
+  else let e1 := if h_unlink h then fs_unlink e else e in
+       if o_symlink e1 || match o_stat e1 with Some _ => true | None => false end then None
+       else Some (e_file (mkf TSock (i_euid id) (i_egid id) (created (sock_recipe fg) inherited))).
+
+(* lock.c lock_create + _lock_stat: with --force an old lock file is unlinked first; open(O_CREAT) keeps owner
+   and mode of an existing file; what was opened must be a regular file of mode exactly 0200 owned by the
+   process (fatal even with --force); a failing open is fatal unless --force (then: no lock) *)
+Inductive lres :=
+| LLocked (e' : fobs) (s : fstat)
+| LNoLock (e' : fobs)
+| LRefuse (w : why)
+| LHang.
+
+Definition lock_step (fg force : bool) (id : ident) (inherited : N) (e : fobs) : lres :=
+  let h := lock_how fg in
+  let e1 := if force || h_unlink h then fs_unlink e else e in
+  match create_at (mkh false (h_excl h) (h_nofollow h)) (lock_recipe fg) id inherited e1 with
+  | OOpened e' s =>
+    if is_reg s && (f_mode s =? s_iwusr) && (f_uid s =? pick_uid lock_owner_id id)
+    then LLocked e' s else LRefuse WLock
+  | OFail => if force then LNoLock e1 else LRefuse WCreate
+  | OBlock => LHang
+  end.
+
+Definition lock_why (l : lres) : option why :=
+  match l with LRefuse w => Some w | LHang => Some WHang | _ => None end.
+Definition lock_entry (e : fobs) (l : lres) : fobs :=
+  match l with LLocked e' _ => e' | LNoLock e' => e' | _ => e end.
+Definition lock_file (l : lres) : option fstat :=
+  match l with LLocked _ s => Some s | _ => None end.
+
+(* munged.c open_logfile after the checks: fopen(name, "a") *)
+Definition log_open (id : ident) (inherited : N) (e : fobs) : ores :=
+  create_at log_how log_recipe id inherited e.
+Definition open_why (r : ores) : option why :=
+  match r with OOpened _ _ => None | OFail => Some WCreate | OBlock => Some WHang end.
+
 (* munged.c sock_create up to the lock *)
-Definition sock_check (force : bool) (euid tg : N) (chain : list dstat) : option why :=
+Definition sock_check (force : bool) (id : ident) (tg : N) (chain : list dstat) : option why :=
   if force then None
-  else match dir_why (path_is_secure euid tg sock_flags chain) with
+  else match dir_why (path_secure_as id tg sock_flags chain) with
        | Some w => Some w
        | None => match path_is_accessible chain with Some i => Some (WAccess i) | None => None end
        end.
 
-Definition pid_check (force : bool) (euid tg : N) (chain : list dstat) : option why :=
-  if force then None else dir_why (path_is_secure euid tg pid_flags chain).
+Definition pid_check (force : bool) (id : ident) (tg : N) (chain : list dstat) : option why :=
+  if force then None else dir_why (path_secure_as id tg pid_flags chain).
 
 (* ---- the whole start-up, in the order of main() ---- *)
-Inductive site := SLog | SSeed | SKey | SSock | SLock | SPid.
+Inductive site := SLog | SSeed | SKey | SSock | SLock | SBind | SPid.
 
 Record config := mkc {
-  c_fg : bool; c_force : bool; c_euid : N; c_tg : N; c_umask : N;
+  c_fg : bool; c_force : bool; c_id : ident; c_tg : N; c_umask : N;
   c_key : fobs; c_keydir : list dstat;
   c_seed : fobs; c_seeddir : list dstat;
   c_log : fobs; c_logdir : list dstat;
-  c_sockdir : list dstat; c_lock : option fstat;
-  c_piddir : list dstat }.
+  c_sock : fobs; c_sockdir : list dstat; c_lock : fobs;
+  c_pid : fobs; c_piddir : list dstat }.
 
 Definition tag (s : site) (w : option why) : option (site * why) :=
   match w with Some x => Some (s, x) | None => None end.
@@ -210,41 +350,50 @@ Fixpoint first_some {A} (l : list (option A)) : option A :=
   match l with [] => None | Some x :: _ => Some x | None :: r => first_some r end.
 
 Definition seed_of (c : config) : seedres :=
-  seed_step (c_force c) (c_euid c) (c_tg c) (c_seed c) (c_seeddir c).
+  seed_step (c_force c) (c_id c) (c_tg c) (c_seed c) (c_seeddir c).
+Definition log_of (c : config) : ores := log_open (c_id c) (c_umask c) (c_log c).
+Definition lock_of (c : config) : lres := lock_step (c_fg c) (c_force c) (c_id c) (c_umask c) (c_lock c).
+Definition bind_of (c : config) : option fobs := sock_bind (c_fg c) (c_id c) (c_umask c) (c_sock c).
+Definition pid_of (c : config) : wres := pid_write (c_fg c) (c_id c) (c_umask c) (c_pid c).
 
-(* None = the daemon starts; Some (site, why) = it exits with that first complaint *)
+(* None = the daemon starts; Some (site, why) = it exits (or, WHang, blocks) with that first complaint *)
 Definition startup (c : config) : option (site * why) :=
   first_some
     [ if c_fg c then None
-      else tag SLog (logfile_check (c_force c) (c_euid c) (c_tg c) (c_log c) (c_logdir c));
+      else tag SLog (logfile_check (c_force c) (c_id c) (c_tg c) (c_log c) (c_logdir c));
+      if c_fg c then None else tag SLog (open_why (log_of c));
       tag SSeed (sr_refuse (seed_of c));
       tag SSeed (if sr_hang (seed_of c) then Some WHang else None);
-      tag SKey (keyfile_check (c_force c) (c_euid c) (c_tg c) (c_key c) (c_keydir c));
-      tag SSock (sock_check (c_force c) (c_euid c) (c_tg c) (c_sockdir c));
-      tag SLock (lock_check (c_fg c) (c_force c) (c_euid c) (c_umask c) (c_lock c));
-      tag SPid (pid_check (c_force c) (c_euid c) (c_tg c) (c_piddir c)) ].
+      tag SKey (keyfile_check (c_force c) (c_id c) (c_tg c) (c_key c) (c_keydir c));
+      tag SSock (sock_check (c_force c) (c_id c) (c_tg c) (c_sockdir c));
+      tag SLock (lock_why (lock_of c));
+      tag SBind (match bind_of c with None => Some WExists | Some _ => None end);
+      tag SPid (pid_check (c_force c) (c_id c) (c_tg c) (c_piddir c));
+      tag SPid (if w_hang (pid_of c) then Some WHang else None) ].
 
-(* modes of the files a successful start leaves behind; the log file keeps its mode when it existed *)
-Record modes := mkm { m_sock : N; m_lock : N; m_pid : N; m_log : option N; m_seed : N }.
-Definition created_modes (c : config) : modes :=
-  let u := c_umask c in
-  mkm (created (sock_recipe (c_fg c)) u)
-      (lock_mode (c_fg c) (c_force c) u (c_lock c))
-      (created (pid_recipe (c_fg c)) u)
+(* the entries a successful start leaves behind (what lstat/stat report at each name) *)
+Record after := mka { a_sock : fobs; a_lock : fobs; a_pid : fobs; a_log : option fobs }.
+Definition after_start (c : config) : after :=
+  mka (match bind_of c with Some e => e | None => c_sock c end)
+      (lock_entry (c_lock c) (lock_of c))
+      (w_entry (pid_of c))
       (if c_fg c then None
-       else Some (match o_stat (c_log c) with Some s => f_mode s | None => created log_recipe u end))
-      (created (seed_recipe (c_fg c)) u).
+       else Some (match log_of c with OOpened e' _ => e' | _ => c_log c end)).
 
-(* mode of the regular file found at the seed path after a clean stop: the new seed when the name was
-   kept; otherwise (--force with an insecure seed directory) the old file if it was not unlinked *)
-Definition seed_after (c : config) : option N :=
-  let sr := seed_of c in
-  if sr_keep sr then Some (m_seed (created_modes c))
-  else if sr_removed sr then None
-  else match o_stat (c_seed c) with
-       | Some s => if is_reg s then Some (f_mode s) else None
-       | None => None
-       end.
+(* the seed name after a clean stop: start-up may have removed it; when the name was kept
+   (seed directory secure) a new seed is written at exit *)
+Definition seed_at_exit (c : config) : fobs :=
+  if sr_removed (seed_of c) then e_absent else c_seed c.
+Definition seed_written (c : config) : wres :=
+  if sr_keep (seed_of c) then seed_write (c_fg c) (c_id c) (c_umask c) (seed_at_exit c)
+  else mkw (seed_at_exit c) None false.
+Definition seed_after (c : config) : fobs := w_entry (seed_written c).
+
+(* modes a start on a clean slate leaves behind (every name absent) *)
+Record modes := mkm { m_sock : N; m_lock : N; m_pid : N; m_log : N; m_seed : N }.
+Definition fresh_modes (fg : bool) (u : N) : modes :=
+  mkm (created (sock_recipe fg) u) (created (lock_recipe fg) u) (created (pid_recipe fg) u)
+      (created log_recipe u) (created (seed_recipe fg) u).
 
 (* bound check used in the statements: every permission bit of m is in bound *)
 Definition within (m bound : N) : bool := N.ldiff m bound =? 0.
